@@ -24,7 +24,7 @@ RULE = (
 )
 FAULT_KEYS = ["shuffle", "long_locus", "policy_first", "policy_last", "policy_adjacent", "policy_tape", "adversarial_choice", "row_permute"]
 PROBE_KEYS = ["sweep_over_256", "impossible_breaks_refused", "saturated_posterior_at_threshold_1", "sweeps_checked", "sweep_over_127", "partitions_checked", "max_breaks", "fixing_checked", "all_fixed", "some_fixed", "none_fixed",
-              "threshold_near_skip", "fixed_multiallelic", "fix_after_earlier_fit", "cli_fixing_checked", "cli_some_fixed", "cli_all_fixed", "cli_none_fixed"]
+              "threshold_near_skip", "fixed_multiallelic", "fix_after_earlier_fit", "fix_after_fit_of_same_reads_other_counts", "cli_fixing_checked", "cli_some_fixed", "cli_all_fixed", "cli_none_fixed"]
 OPTIONAL_PROBES = {"quick": ("threshold_near_skip",), "thorough": ()}
 COMPONENTS = {
     "real": ["mchap.assemble.mutation.compound_step", "mchap.assemble.structural.random_breaks", "mchap.assemble.mcmc.DenovoMCMC.fit/_mcmc/_homozygosity_probabilities/_denovo_assembler",
@@ -90,6 +90,10 @@ def gen_config(rng, tier, index=0):
         "temperatures": rng.choice([[1.0], [0.2, 1.0]]),
         # history: the same model object was fitted before, on other reads of the same locus (another sample)
         "refit": rng.random() < 0.3,
+        # history: ANOTHER model was fitted earlier in the process to byte-identical reads with other counts / inbreeding
+        # (two samples or loci with the same distinct reads at different depths): whatever is remembered between fits must be
+        # keyed by everything the screen depends on
+        "prefit_same_reads": rng.random() < 0.3,
     }
 
 
@@ -324,6 +328,17 @@ def run_fix(ctx):
         seams.set(amcmc, "_denovo_assembler", w_denovo)
         model = amcmc.DenovoMCMC(ploidy=pl, n_alleles=list(n_alleles), inbreeding=F, steps=cfg["steps"], chains=cfg["chains"],
                                  fix_homozygous=thr, temperatures=tuple(cfg["temperatures"]), random_seed=3, llk_cache_threshold=-1)
+        if cfg.get("prefit_same_reads") and len(reads) > 1:
+            if counts is not None and len(set(int(c) for c in counts)) > 1:
+                counts_b = np.array(counts)[::-1].copy()
+            else:
+                counts_b = np.array([1 + 29 * (i % 2) for i in range(len(reads))], dtype=np.int64)
+            other_model = amcmc.DenovoMCMC(ploidy=pl, n_alleles=list(n_alleles), inbreeding=(0.5 if F < 0.25 else 0.0), steps=1, chains=1,
+                                           fix_homozygous=thr, temperatures=(1.0,), random_seed=4, llk_cache_threshold=-1)
+            other_model.fit(reads.copy(), read_counts=counts_b)
+            ctx.counters.inc("fix_after_fit_of_same_reads_other_counts")
+            seen["calls"] = []
+            del sim.history[:]
         if cfg.get("refit"):
             other = dict(cfg, data_seed=cfg["data_seed"] ^ 0x5A5A5A, hom_cols=[not h for h in cfg["hom_cols"]], depth=max(cfg["depth"], 12))
             reads_a, counts_a = gen_fix_reads(other)
